@@ -260,18 +260,20 @@ class ExcludeRegionState(object):  # pylint: disable=too-many-instance-attribute
         boolean
             True if any point in the list is contained in an excluded region, False otherwise.
         """
-        if (self._exclusionEnabled):
-            xAxis = self.position.X_AXIS
-            yAxis = self.position.Y_AXIS
+        # The axis position is always advanced through every point (even when exclusion is disabled or
+        # after an excluded point was found), so the tracked position ends at the final point.
+        xAxis = self.position.X_AXIS
+        yAxis = self.position.Y_AXIS
+        anyExcluded = False
 
-            for index in range(0, len(xyPairs), 2):
-                x = xAxis.setLogicalPosition(xyPairs[index])
-                y = yAxis.setLogicalPosition(xyPairs[index + 1])
+        for index in range(0, len(xyPairs), 2):
+            x = xAxis.setLogicalPosition(xyPairs[index])
+            y = yAxis.setLogicalPosition(xyPairs[index + 1])
 
-                if (self.isPointExcluded(x, y)):
-                    return True
+            if (not anyExcluded) and self.isPointExcluded(x, y):
+                anyExcluded = True
 
-        return False
+        return anyExcluded
 
     def isExclusionEnabled(self):
         """Whether exclusion is currently enabled (True) or disabled (False)."""
